@@ -186,6 +186,11 @@ func c03RouteHop(c *Ctx, f *ssa.Function) {
 		ok, why := w.errPropagated(f, call)
 		c.check(ok, rule, "ByRoute/"+w.calleeName(call)+"-error", w.ipos(call), "failure yields no Route hop", "failure of "+w.calleeName(call)+" does not yield an error: "+why)
 	}
+	// the entry is read before anything is popped from the Route (otherwise index 0 is already the entry after)
+	for i, pop := range w.callsIn(f, "(*Message).PopRoute", "(*Route).PopRouteParam", "(*Message).RemoveHeader") {
+		c.check(mustPrecede(f, []ssa.Instruction{gp}, pop.In, nil), rule, fmt.Sprintf("ByRoute/entry-read-before-pop#%d", i+1), w.ipos(pop.In),
+			"the next-hop entry is selected before the Route is shortened", "the Route is shortened before entry 0 is read: the hop is taken from the entry after the first remaining one")
+	}
 	// addr := entry.GetAddress().GetAddress()
 	isAddr := func(v ssa.Value) bool {
 		a2 := w.resultOfCallTo(v, "(*NameAddr).GetAddress", 0)
